@@ -1,5 +1,45 @@
 # Per-property check configuration for ./check (entries = harness entry functions in /verif/harness).
 PROPS = {
+    "C02": {
+        "quick": {"entries": ["H_C02_Refute", "H_C02_SelfAnnounce"]},
+        "thorough": {"entries": ["H_C02_Refute", "H_C02_SelfAnnounce"]},
+        "covers": {"H_C02_Refute": ["c02.refuted", "c02.ignored"], "H_C02_SelfAnnounce": ["c02.announce"]},
+        "bounds": {"steps": "1 accusation from an arbitrary state (inductive); carriers: direct call and one-entry push/pull"},
+        "outside": ["accusations at incarnation 2^32-1 (excluded by the statement)", "alive claims about the local name from a different address (conflict branch, C08)", "UpdateNode's wait for the gossip goroutine"],
+        "assumptions": ["local record Alive, its Incarnation <= m.incarnation <= Incarnation+2"],
+    },
+    "C06": {
+        "quick": {"entries": ["H_C06_Schedule", "H_C06_StateLevel"]},
+        "thorough": {"entries": ["H_C06_Schedule", "H_C06_StateLevel"]},
+        "covers": {"H_C06_Schedule": ["c06.sched"], "H_C06_StateLevel": ["c06.state.expiry", "c06.state.stale", "c06.state.override"]},
+        "bounds": {"k": "0..3", "confirmations": "2 (quick) / 3 (thorough) from 4 names incl. the accuser", "min_max": "{(2s,12s),(0.5s,30s),(1s,1s)} concrete", "gaps": "symbolic 0..40s each", "cluster_size": "{1,2,3,5,10,100}", "SuspicionMult": "{2,4,6}"},
+        "outside": ["float64 schedule for symbolic min/max (floats are concrete here because min/max/k are picked from concrete sets)", "real timer jitter"],
+        "assumptions": ["virtual time: code takes zero time; timers fire no earlier than their deadline"],
+    },
+    "C07": {
+        "quick": {"entries": ["H_C07_Step", "H_C07_TimerReset"]},
+        "thorough": {"entries": ["H_C07_Step", "H_C07_TimerReset"]},
+        "covers": {"H_C07_Step": ["c07.join", "c07.leave", "c07.update", "c07.quiet"], "H_C07_TimerReset": ["c07.timer-reset"]},
+        "bounds": {"steps": "1 claim from an arbitrary state (inductive) + suspicion/timeout/stale-timeout/reap script"},
+        "outside": ["version-vector-only changes", "delegate re-entrancy"],
+        "assumptions": ["representation invariant as in C01"],
+    },
+    "C08": {
+        "quick": {"entries": ["H_C08_Leave", "H_C08_PeerLeave", "H_C08_AddrTable"]},
+        "thorough": {"entries": ["H_C08_Leave", "H_C08_PeerLeave", "H_C08_AddrTable"]},
+        "covers": {"H_C08_Leave": ["c08.leave"], "H_C08_PeerLeave": ["c08.peer"], "H_C08_AddrTable": ["c08.addr.filtered", "c08.addr.reclaimed", "c08.addr.conflict"]},
+        "bounds": {"steps": "Leave; alive-after-leave; second Leave / peer: leave then one in-flight alive then one suspect / address table: 1 step"},
+        "outside": ["Leave racing a concurrent accusation (schedule-level, see DESIGN.md)", "delivery to at least one live peer (needs the gossip goroutine)"],
+        "assumptions": [],
+    },
+    "C18": {
+        "quick": {"entries": ["H_C18_Admission"]},
+        "thorough": {"entries": ["H_C18_Admission"]},
+        "covers": {"H_C18_Admission": ["c18.bad-source", "c18.disallowed-claim", "c18.allowed-claim"]},
+        "bounds": {"allowlist": "{10.1.0.0/16} or {10.1.0.0/16, fd00::/8}", "claimed address length": "{0,4,5,16} symbolic bytes", "carriers": "handleAlive from allowed / disallowed v4 / disallowed v6 source, push/pull entry"},
+        "outside": ["string parsing of the packet source address (concrete sources)", "empty allowlist = not configured"],
+        "assumptions": ["every address already in the table is allowed (invariant, re-established by the step)"],
+    },
     "C01": {
         "quick": {"entries": ["H_C01_Step"]},
         "thorough": {"entries": ["H_C01_Step"]},
